@@ -260,6 +260,9 @@ func c10R3(c *Ctx, rule string) {
 	engine.EachInstr(fn, func(in ssa.Instruction) {
 		if ifi, ok := in.(*ssa.If); ok {
 			cd := c.P.CondOf(ifi.Cond)
+			if cd.IsRel && cd.YV == ssa.Value(idx) {
+				cd = cd.Flipped()
+			}
 			if cd.IsRel && cd.XV == ssa.Value(idx) && cd.EdgeOrd(true) == engine.LT|engine.EQ && strings.HasSuffix(cd.Y, ".Index") {
 				upperOK = true
 			}
